@@ -15,7 +15,10 @@ ASSUMPTIONS = TRUSTED_BASE + [
     "referenced frame with its velocity direction, the path stops at the first frame outside / at the length limit and success is reported only in the former case",
     "proved: EngineBase.propagate (the set-up shared by the external engines) dumps the given point, reverses velocities exactly when the requested direction differs from the point's, starts the engine's own "
     "_propagate_from exactly once from that file / frame 0 with the requested direction and returns its result; dump_frame / _reverse_velocities / _propagate_from are recording stubs (engine specific, not verified here)",
-    "NOT covered: the CP2K and GROMACS polling loops, the ASE loop, process clean-up of GROMACS/CP2K, retrace-under-time-reversal (engine property)",
+    "proved (slices of the real _propagate_from ASTs, contracts/engines_loops2.py): the CP2K consumption loop (two queues: positions and velocities of frame k are paired, one file frame per phase point, queues stay aligned between polls) "
+    "and its failure statement; the GROMACS frame loop (own x / v / box, velocity direction as announced by vel_rev -- refuted on the original tree: fix fa7c73d); the ASE in-process loop (the arrays the order is computed from are the ones written as frame k). "
+    "Assumed there: the reader hands out frame k as its k-th item (C13), EngineBase.calculate_order applies vel_rev (E2 clause above), system.vel_rev == reverse on entry (postcondition of EngineBase.propagate)",
+    "NOT covered: the polling / waiting code around those loops, GromacsRunner (generator with try/except), the TurtleMD loop deductively (bounded native only), process clean-up of GROMACS, retrace-under-time-reversal (engine property)",
 ]
 EXPLANATION = (
     "What a contract can reach is the Python driver, not the MD programs. The stop rule shared by all engines is proved against an exact specification; the LAMMPS frame-consumption loop is verified on the real AST with a "
@@ -28,6 +31,10 @@ def jobs(tier):
         ("e1", {"name": "EngineBase.add_to_path", "registry": "contracts.tis_moves", "key": "EngineBase.add_to_path", "clause": "stop / success rule", "cost": 2, "parallel": 2}),
         ("e1", {"name": "EngineBase.propagate", "registry": "contracts.engine_base", "key": "EngineBase.propagate",
                 "clause": "common set-up: dump the start point, reverse velocities iff the direction changes, start the engine from that file / frame 0 / requested direction, exactly once, return its result", "cost": 1, "parallel": 2}),
+        ("e1", {"name": "cp2k_consume_loop", "registry": "contracts.engines_loops2", "key": "CP2KEngine._propagate_from#consume", "clause": "CP2K: frame k is built from the k-th positions AND the k-th velocities, written as file frame k, stored as (file, k); queues stay aligned", "cost": 1, "parallel": 2}),
+        ("e1", {"name": "cp2k_failure", "registry": "contracts.engines_loops2", "key": "CP2KEngine._propagate_from#failure", "clause": "CP2K failure raises", "cost": 1, "parallel": 1}),
+        ("e1", {"name": "gromacs_frame_loop", "registry": "contracts.engines_loops2", "key": "GromacsEngine._propagate_from#frames", "clause": "GROMACS: frame k uses its own x, v, box with the velocity direction of its vel_rev flag; stored as (trr, k)", "cost": 1, "parallel": 2}),
+        ("e1", {"name": "ase_frame_loop", "registry": "contracts.engines_loops2", "key": "ASEEngine._propagate_from#frames", "clause": "ASE: the order of phase point k is computed from the arrays written as file frame k (same dynamics version), stored as (traj, k)", "cost": 1, "parallel": 2}),
         ("e1", {"name": "lammps_consume_loop", "registry": "contracts.engines_loops", "key": "LAMMPSEngine._propagate_from#consume", "clause": "frame k uses its own data", "cost": 2, "parallel": 2}),
         ("e1", {"name": "lammps_failure", "registry": "contracts.engines_loops", "key": "LAMMPSEngine._propagate_from#failure", "clause": "failure raises", "cost": 1, "parallel": 1}),
         ("py", {"name": "distancevel_engine_vel_rev", "module": "props.C20", "fn": "run_clause", "clause": "distancevel_engine_vel_rev"}),
@@ -192,7 +199,71 @@ def base_propagate_native():
     return None
 
 
+def gromacs_loop_native():
+    """The real GromacsEngine._propagate_from with the GROMACS programs replaced by a scripted frame source: for a
+    velocity-dependent order parameter the stored order of every frame must equal the one recomputed from the frame's own
+    data the way the rest of infretis recomputes it (EngineBase.calculate_order: velocities * -1 iff vel_rev)."""
+    import numpy as np
+    from infretis.classes.engines import gromacs as G
+    from infretis.classes.orderparameter import Velocity
+    from infretis.classes.path import Path
+    from infretis.classes.system import System
+    frames = [{"x": np.array([[0.1 * k, 0, 0], [1, 0, 0]], float), "v": np.array([[0.5 + 0.1 * k, 0, 0], [0, 0, 0]], float), "box": np.eye(3) * 3} for k in range(4)]
+
+    class FakeRunner:
+        def __init__(self, *a, **k):
+            pass
+
+        def __enter__(self):
+            return self
+
+        def __exit__(self, *a):
+            return False
+
+        def get_gromacs_frames(self):
+            for f in frames:
+                yield {k: v.copy() for k, v in f.items()}
+
+    class Msg:
+        def write(self, *a):
+            pass
+
+        def flush(self):
+            pass
+    saved = G.GromacsRunner
+    G.GromacsRunner = FakeRunner
+    try:
+        for reverse in (False, True):
+            e = object.__new__(G.GromacsEngine)
+            e.exe_dir, e.subcycles, e.ext, e.input_files, e.mdrun = "/var/tmp", 1, "g96", {"input": "x.mdp"}, "gmx mdrun -s {} -deffnm {} -c {}"
+            e.order_function = Velocity(0, dim="x")
+            e._modify_input = lambda *a, **k: None
+            e._execute_grompp = lambda *a, **k: {"tpr": "t.tpr"}
+            e._remove_files = lambda *a, **k: None
+            e.get_energies = lambda *a, **k: {"kinetic en.": np.zeros(10), "potential": np.zeros(10)}
+            e._remove_gromacs_backup_files = lambda *a, **k: None
+            e._read_configuration = lambda fn: (frames[0]["x"].copy(), frames[0]["v"].copy(), np.array([3.0, 3, 3]), None)
+            s = System()
+            s.config, s.vel_rev = ("init.g96", 0), reverse  # EngineBase.propagate sets vel_rev = reverse before calling
+            p = Path(maxlen=10)
+            e._propagate_from("nm", p, s, {"interfaces": (-100, 0, 100)}, Msg(), reverse=reverse)
+            for k, pt in enumerate(p.phasepoints):
+                s2 = System()
+                s2.config, s2.vel_rev = pt.config, pt.vel_rev
+                e._read_configuration = lambda fn, k=k: (frames[k]["x"].copy(), frames[k]["v"].copy(), np.array([3.0, 3, 3]), None)
+                rec = e.calculate_order(s2)
+                if abs(rec[0] - pt.order[0]) > 1e-12 or pt.config[1] != k or pt.vel_rev != reverse:
+                    return {"function": "GromacsEngine._propagate_from", "reverse": reverse, "frame": k, "stored_order": list(pt.order), "recomputed_from_its_own_frame": list(rec),
+                            "config": list(pt.config), "vel_rev": pt.vel_rev, "errors": [f"frame {k}: stored order {pt.order[0]} != {rec[0]} recomputed from the frame it references (reverse={reverse})"]}
+    finally:
+        G.GromacsRunner = saved
+    return None
+
+
 def search(obname, limit=None):
+    if obname.split("/")[0].startswith("GromacsEngine._propagate_from"):
+        w = gromacs_loop_native()
+        return {"witness": w, "native": {"reproduced": True, "detail": w["errors"]}} if w else None
     if obname.split("/")[0] == "EngineBase.propagate":
         w = base_propagate_native()
         return {"witness": w, "native": {"reproduced": True, "detail": w["errors"]}} if w else None
@@ -200,6 +271,9 @@ def search(obname, limit=None):
 
 
 def replay(obname, w):
+    if obname.split("/")[0].startswith("GromacsEngine._propagate_from"):
+        hit = search(obname)
+        return hit["native"] if hit else {"reproduced": False, "detail": "stored and recomputed orders agree natively for forward and backward runs"}
     if obname.split("/")[0] == "EngineBase.propagate":
         hit = search(obname)
         return hit["native"] if hit else {"reproduced": False, "detail": "the four (reverse, vel_rev) combinations behave as specified natively"}
